@@ -3,9 +3,9 @@
 # Confirms a sub-agent's seeded change (demo passes without / fails with the
 # change, in a scratch worktree of /repo HEAD) and stores it under /verif/seeded.
 set -u
-P=$1; V=$2; DET=${3:-}
-SRC=/tmp/mut/$P-out
-ID=$P-$V
+P=$1; V=$2; DET=${3:-}; SFX=${4:-}
+SRC=/tmp/mut/$P$SFX-out
+ID=$P$SFX-$V
 DST=/verif/seeded/$ID
 WT=/tmp/mv/demo-$ID
 export GOFLAGS=-mod=mod GOPROXY=off GOSUMDB=off GOTOOLCHAIN=local
@@ -22,12 +22,12 @@ if [ "$without" != 0 ] || [ "$with" = 0 ]; then echo "$ID: NOT CONFIRMED"; exit 
 rm -rf "$DST"; mkdir -p "$DST/demo"
 cp "$SRC/$V.patch" "$DST/patch.diff"
 cp -r "$SRC/${V}_demo/." "$DST/demo/"
-sed -i "s#/tmp/mut/$P-out/${V}_demo/#/verif/seeded/$ID/demo/#g; s#/tmp/mut/$P-out/$V.patch#/verif/seeded/$ID/patch.diff#g; s#/tmp/mut/$P#<scratch worktree of /repo>#g" "$DST/demo/RUN.txt"
-python3 - "$P" "$V" "$DST" "$SRC" "$DET" "$without" "$with" <<'PY'
+sed -i "s#/tmp/mut/$P$SFX-out/${V}_demo/#/verif/seeded/$ID/demo/#g; s#/tmp/mut/$P$SFX-out/$V.patch#/verif/seeded/$ID/patch.diff#g; s#/tmp/mut/$P$SFX#<scratch worktree of /repo>#g" "$DST/demo/RUN.txt"
+python3 - "$P" "$V" "$DST" "$SRC" "$DET" "$without" "$with" "$ID" <<'PY'
 import json,sys
-P,V,DST,SRC,DET,wo,wi=sys.argv[1:8]
+P,V,DST,SRC,DET,wo,wi,ID=sys.argv[1:9]
 meta=open(f"{SRC}/{V}.meta.txt").read()
-json.dump({"id":f"{P}-{V}","property":P,"source":"independent sub-agent given only the property text and a scratch worktree",
+json.dump({"id":ID,"property":P,"source":"independent sub-agent given only the property text and a scratch worktree",
  "what_and_what_it_needs_to_manifest":meta,
  "confirmed":{"repository_suite_with_change":"passes (tools/try_mutant.sh: tools/baseline.sh on a scratch worktree)","demo_fail_lines_without_change":int(wo),"demo_fail_lines_with_change":int(wi)},
  "checks_run":DET},open(f"{DST}/meta.json","w"),indent=1)
